@@ -330,6 +330,31 @@ let cmd_detect (args : string list) : string =
      | Detect.DHang -> "HANG")
   | _ -> "BADCASE"
 
+
+(* ---- slice <width> <msb> <lsb> <idx:bits,...> ---- *)
+let bytes_of_string (s : string) : BinNums.coq_N list =
+  Stdlib.List.init (Stdlib.String.length s) (fun i -> n_of_int (Char.code s.[i]))
+
+let cmd_slice (args : string list) : string =
+  match args with
+  | [width; msb; lsb; changes] ->
+    let tpes = [sig_enc_of ("b" ^ width)] in
+    let e = ref (WaveMem.enc_new tpes) in
+    let last = ref (-1) in
+    Stdlib.List.iter (fun c ->
+      let (idx, v) = split2 ':' c in
+      let idx = int_of_n (n_of_hex idx) in
+      while !last < idx do
+        incr last;
+        e := get (WaveMem.time_change lz_compress !cap !e (n_of_int !last))
+      done;
+      e := get (WaveMem.vcd_value_change parse_f64 !e Datatypes.O (bytes_of_string ("b" ^ v)))) (split_on ',' changes);
+    let (blocks, _) = get (WaveMem.enc_finish lz_compress !e) in
+    let parent = get (WaveMem.load_signal lz_decompress blocks Datatypes.O (Stdlib.List.hd tpes)) in
+    let sliced = get (Slice.slice_signal !debug parent (nat_of_int (int_of_string msb)) (nat_of_int (int_of_string lsb))) in
+    "p=" ^ signal_obs parent ^ " s=" ^ signal_obs sliced
+  | _ -> "BADCASE"
+
 let dispatch (cmd : string) (args : string list) : string =
   match cmd with
   | "offsets" -> cmd_offsets args
@@ -338,6 +363,7 @@ let dispatch (cmd : string) (args : string list) : string =
   | "fstw" -> cmd_fstw args
   | "hier" -> cmd_hier args
   | "detect" -> cmd_detect args
+  | "slice" -> cmd_slice args
   | "vcd" -> cmd_vcd args
   | _ -> "UNSUPPORTED"
 
